@@ -63,8 +63,9 @@ def apply_f(name, b):
 
 
 class OsProxy(object):
-    def __init__(self, log, child_fd_get, stdin_fd):
+    def __init__(self, log, child_fd_get, stdin_fd, short=None):
         self.log, self.cfd, self.sfd = log, child_fd_get, stdin_fd
+        self.short = short           # the child's terminal takes at most this many bytes per write (a nearly full queue; a non-blocking descriptor)
 
     def read(self, fd, n):
         try:
@@ -80,6 +81,8 @@ class OsProxy(object):
         return d
 
     def write(self, fd, data):
+        if self.short and fd == self.cfd():
+            data = bytes(data)[:self.short]
         n = os.write(fd, data)
         if fd == self.cfd():
             self.log.append(['wc', bytes(data[:n]).hex()])
@@ -118,7 +121,14 @@ def session(arg):
         kw = {}
         if case.get('encoding'):
             kw['encoding'] = case['encoding']
-        p = pexpect.spawn(sys.executable, [cp, rp, fifo], timeout=5, use_poll=bool(case.get('poll')), echo=False, **kw)
+        # use_poll exists for programs that hold many descriptors: the child's terminal may well have a number select() cannot take
+        dummies = [os.open('/dev/null', os.O_RDONLY) for _ in range(1040)] if case.get('highfd') else []
+        try:
+            p = pexpect.spawn(sys.executable, [cp, rp, fifo], timeout=5, use_poll=bool(case.get('poll')), echo=False, **kw)
+        finally:
+            for fd_ in dummies:
+                os.close(fd_)
+        out['child_fd'] = p.child_fd
         p.STDIN_FILENO = osl
         p.STDOUT_FILENO = osl
         if case.get('logs'):
@@ -243,7 +253,7 @@ def session(arg):
                 raw_set.set()
             return r
         tty.setraw = setraw
-        PS.os = OsProxy(log, lambda: p.child_fd, osl)
+        PS.os = OsProxy(log, lambda: p.child_fd, osl, case.get('short'))
         th_u.start()
         log0 = {k: len(v.getvalue()) for k, v in logs.items()}
         esc = case.get('esc', chr(29))
@@ -452,6 +462,13 @@ CORPUS = [
     dict(steps=[T(b'abc', 3), ['burst_exit', 16000]], esc=chr(29)),
     dict(steps=[['burst_exit', 100000]], esc=chr(29)),
     dict(steps=[S_(b'bye'), ['quit']], esc=chr(29)),
+    # poll mode with a descriptor number beyond what select() accepts (the reason use_poll exists): output, keystrokes, child exit
+    dict(steps=[S_(b'last words'), ['quit']], esc=chr(29), poll=True, highfd=True),
+    dict(steps=[T(b'abc', 3), ['burst_exit', 2500]], esc=chr(29), poll=True, highfd=True),
+    dict(steps=[S_(b'out'), T(b'typed' + ESC + b'not sent')], esc=chr(29), poll=True, highfd=True),
+    # the child's terminal takes three bytes per write: everything typed still arrives, also what precedes the escape character in its read
+    dict(steps=[T(b'hello world\n' + ESC + b'ignored\n')], esc=chr(29), short=3),
+    dict(steps=[T(b'0123456789abcdef', 16), S_(b'ok'), T(b'xyz' + ESC)], esc=chr(29), short=3, poll=True),
     # no escape character: ^] is data
     dict(steps=[T(b'a' + ESC + b'b', 3), ['quit']], esc=None),
     # filters
@@ -512,6 +529,10 @@ def rand_case(rng):
                 poll=rng.random() < 0.3, encoding=rng.choice([None, None, 'latin-1']), logs=rng.random() < 0.4)
     if case['fin'] == 'up' and esc == 'q':
         case['esc'] = 'Q'          # the filter runs before the escape test
+    if case['poll'] and rng.random() < 0.5:
+        case['highfd'] = True
+    if rng.random() < 0.25:
+        case['short'] = rng.choice([1, 3, 7])
     return case
 
 
